@@ -132,6 +132,8 @@ pub trait PolyGlue<F: PrimeField>: Polynomial<F> {
     /// true degree of the built polynomial (0 for zero/const); number of variables for ML
     fn size(&self) -> usize;
     fn is_constant(&self) -> bool;
+    /// self + c (as a polynomial of the same representation)
+    fn add_const(&self, c: F) -> Self;
 }
 
 fn nz<F: PrimeField>(r: &mut impl RngCore) -> F {
@@ -204,6 +206,15 @@ impl<F: PrimeField> PolyGlue<F> for UPoly<F> {
     }
     fn is_constant(&self) -> bool {
         self.coeffs.len() <= 1
+    }
+    fn add_const(&self, c: F) -> Self {
+        let mut v = self.coeffs.clone();
+        if v.is_empty() {
+            v.push(c);
+        } else {
+            v[0] += c;
+        }
+        DensePolynomial::from_coefficients_vec(v)
     }
 }
 
@@ -278,6 +289,9 @@ impl<F: PrimeField> PolyGlue<F> for MlPoly<F> {
     }
     fn is_constant(&self) -> bool {
         self.evaluations.windows(2).all(|w| w[0] == w[1])
+    }
+    fn add_const(&self, c: F) -> Self {
+        DenseMultilinearExtension::from_evaluations_vec(self.num_vars, self.evaluations.iter().map(|e| *e + c).collect())
     }
 }
 
@@ -365,6 +379,11 @@ impl<F: PrimeField> PolyGlue<F> for MvPoly<F> {
     fn is_constant(&self) -> bool {
         self.terms.iter().all(|(_, t)| t.is_constant())
     }
+    fn add_const(&self, c: F) -> Self {
+        let mut t = self.terms.clone();
+        t.push((c, SparseTerm::new(vec![])));
+        SparsePolynomial::from_coefficients_vec(self.num_vars, t)
+    }
 }
 
 // ---------------------------------------------------------------------------------------------
@@ -388,6 +407,19 @@ pub trait Scheme: 'static + Sized {
     }
     /// every single-component replacement / shape mutation of a proof: (name, mutated proof)
     fn proof_variants(_p: &Proof<Self>, _seed: u64) -> Vec<(String, Proof<Self>)> {
+        vec![]
+    }
+    /// targeted forgeries (false claim + crafted proof) for operation `op`: (name, claim)
+    #[cfg(feature = "full")]
+    fn forged_claims(
+        _scn: &crate::scenario::Scenario,
+        _sess: &crate::session::Sess<Self>,
+        _op: &crate::scenario::Op,
+        _honest: &crate::session::Claim<Self>,
+        _pos: usize,
+        _pre_verifier: &crate::seams::TraceSponge<Self::F>,
+        _f: &crate::scenario::Fault,
+    ) -> Vec<(String, crate::session::Claim<Self>)> {
         vec![]
     }
     /// every single-element replacement of a commitment
@@ -460,6 +492,10 @@ where
     fn name() -> String {
         format!("marlin-{}", E::CURVE)
     }
+    #[cfg(feature = "full")]
+    fn proof_variants(p: &Proof<Self>, seed: u64) -> Vec<(String, Proof<Self>)> {
+        crate::surgery::kzg_proof_variants::<E>(p, seed)
+    }
     fn comm_without_shifted(c: &Comm<Self>) -> Option<Comm<Self>> {
         c.shifted_comm.map(|_| ark_poly_commit::marlin_pc::Commitment { comm: c.comm, shifted_comm: None })
     }
@@ -480,6 +516,10 @@ where
     fn name() -> String {
         format!("sonic-{}", E::CURVE)
     }
+    #[cfg(feature = "full")]
+    fn proof_variants(p: &Proof<Self>, seed: u64) -> Vec<(String, Proof<Self>)> {
+        crate::surgery::kzg_proof_variants::<E>(p, seed)
+    }
 }
 pub struct IpaS<G>(PhantomData<G>);
 impl<G: AffineRepr + CurveName> Scheme for IpaS<G>
@@ -494,6 +534,10 @@ where
     const FAMILY: Family = Family::Ipa;
     fn name() -> String {
         format!("ipa-{}", G::CURVE)
+    }
+    #[cfg(feature = "full")]
+    fn proof_variants(p: &Proof<Self>, seed: u64) -> Vec<(String, Proof<Self>)> {
+        crate::surgery::ipa_proof_variants::<G>(p, seed)
     }
     fn comm_without_shifted(c: &Comm<Self>) -> Option<Comm<Self>> {
         c.shifted_comm.map(|_| ark_poly_commit::ipa_pc::Commitment { comm: c.comm, shifted_comm: None })
@@ -515,6 +559,10 @@ where
     fn name() -> String {
         format!("pst13-{}", E::CURVE)
     }
+    #[cfg(feature = "full")]
+    fn proof_variants(p: &Proof<Self>, seed: u64) -> Vec<(String, Proof<Self>)> {
+        crate::surgery::pst_proof_variants::<E>(p, seed)
+    }
 }
 pub struct HyraxS<G>(PhantomData<G>);
 impl<G: AffineRepr + CurveName> Scheme for HyraxS<G>
@@ -530,6 +578,10 @@ where
     fn name() -> String {
         format!("hyrax-{}", G::CURVE)
     }
+    #[cfg(feature = "full")]
+    fn proof_variants(p: &Proof<Self>, seed: u64) -> Vec<(String, Proof<Self>)> {
+        crate::surgery::hyrax_proof_variants::<G>(p, seed)
+    }
 }
 pub struct ULigeroS<F>(PhantomData<F>);
 impl<F: PrimeField + Absorb + CurveName> Scheme for ULigeroS<F> {
@@ -540,6 +592,22 @@ impl<F: PrimeField + Absorb + CurveName> Scheme for ULigeroS<F> {
     const FAMILY: Family = Family::ULigero;
     fn name() -> String {
         format!("uligero-{}", F::CURVE)
+    }
+    #[cfg(feature = "full")]
+    fn proof_variants(p: &Proof<Self>, seed: u64) -> Vec<(String, Proof<Self>)> {
+        crate::surgery::lincode_proof_variants::<F, MT, Proof<Self>>(p, seed)
+    }
+    #[cfg(feature = "full")]
+    fn forged_claims(
+        scn: &crate::scenario::Scenario,
+        sess: &crate::session::Sess<Self>,
+        op: &crate::scenario::Op,
+        honest: &crate::session::Claim<Self>,
+        pos: usize,
+        pre_verifier: &crate::seams::TraceSponge<Self::F>,
+        f: &crate::scenario::Fault,
+    ) -> Vec<(String, crate::session::Claim<Self>)> {
+        crate::lincode::forge::<Self, UnivariateLigero<F, MT, UPoly<F>, CH<F>>>(scn, sess, op, honest, pos, pre_verifier, f)
     }
 }
 pub struct MLigeroS<F>(PhantomData<F>);
@@ -552,6 +620,22 @@ impl<F: PrimeField + Absorb + CurveName> Scheme for MLigeroS<F> {
     fn name() -> String {
         format!("mligero-{}", F::CURVE)
     }
+    #[cfg(feature = "full")]
+    fn proof_variants(p: &Proof<Self>, seed: u64) -> Vec<(String, Proof<Self>)> {
+        crate::surgery::lincode_proof_variants::<F, MT, Proof<Self>>(p, seed)
+    }
+    #[cfg(feature = "full")]
+    fn forged_claims(
+        scn: &crate::scenario::Scenario,
+        sess: &crate::session::Sess<Self>,
+        op: &crate::scenario::Op,
+        honest: &crate::session::Claim<Self>,
+        pos: usize,
+        pre_verifier: &crate::seams::TraceSponge<Self::F>,
+        f: &crate::scenario::Fault,
+    ) -> Vec<(String, crate::session::Claim<Self>)> {
+        crate::lincode::forge::<Self, MultilinearLigero<F, MT, MlPoly<F>, CH<F>>>(scn, sess, op, honest, pos, pre_verifier, f)
+    }
 }
 pub struct BrakedownS<F>(PhantomData<F>);
 impl<F: PrimeField + Absorb + CurveName> Scheme for BrakedownS<F> {
@@ -562,6 +646,22 @@ impl<F: PrimeField + Absorb + CurveName> Scheme for BrakedownS<F> {
     const FAMILY: Family = Family::Brakedown;
     fn name() -> String {
         format!("brakedown-{}", F::CURVE)
+    }
+    #[cfg(feature = "full")]
+    fn proof_variants(p: &Proof<Self>, seed: u64) -> Vec<(String, Proof<Self>)> {
+        crate::surgery::lincode_proof_variants::<F, MT, Proof<Self>>(p, seed)
+    }
+    #[cfg(feature = "full")]
+    fn forged_claims(
+        scn: &crate::scenario::Scenario,
+        sess: &crate::session::Sess<Self>,
+        op: &crate::scenario::Op,
+        honest: &crate::session::Claim<Self>,
+        pos: usize,
+        pre_verifier: &crate::seams::TraceSponge<Self::F>,
+        f: &crate::scenario::Fault,
+    ) -> Vec<(String, crate::session::Claim<Self>)> {
+        crate::lincode::forge::<Self, MultilinearBrakedown<F, MT, MlPoly<F>, CH<F>>>(scn, sess, op, honest, pos, pre_verifier, f)
     }
 }
 
